@@ -464,6 +464,8 @@ type concCase struct {
 	slowat   int    // source Emit call index that takes `slowms` milliseconds before it returns (-1 = none): a quiet source
 	slowms   int
 	ptr      bool   // concurrent map to a POINTER type whose mapper returns nil for elements i with i%3 == 1
+	outerr   bool   // the source is Concat(stream of streams): the outer stream yields the probe stream, then fails
+	ctxbound bool   // concurrent-consume callbacks (other than the failing one) run until THEIR ctx is cancelled
 	ign      bool   // gated callbacks do not look at their ctx: they return (nil) only when the environment releases them
 	nowait   bool   // histories: start the next materialisation right after the previous terminal returned
 	cerr     bool   // pipe: the consumer returns an error (instead of nil) after its reads
@@ -534,6 +536,10 @@ func parseConcCase(text string) (*concCase, error) {
 			cc.slowms = atoi()
 		case "ptr":
 			cc.ptr = v == "1"
+		case "outerr":
+			cc.outerr = v == "1"
+		case "ctxbound":
+			cc.ctxbound = v == "1"
 		case "ign":
 			cc.ign = v == "1"
 		case "nowait":
@@ -693,6 +699,12 @@ func (r *concRun) concConsumer(ctx context.Context, v int) error {
 	r.mu.Lock()
 	r.deliv = append(r.deliv, v)
 	r.mu.Unlock()
+	if r.cc.ctxbound && r.cc.mf != v && r.cc.mp != v {
+		// a long-running callback that honours the context it was given: it returns only when that context is cancelled
+		// (after a sibling failed the library must cancel it, nobody else will)
+		<-ctx.Done()
+		return ctx.Err()
+	}
 	gctx := ctx
 	if r.cc.ign {
 		gctx = context.Background() // a callback that finishes its work regardless of the cancellation
@@ -757,6 +769,19 @@ func (r *concRun) baseStream() stream.Stream[int] {
 		r.src.log.add(fmt.Sprintf("o%d", r.src.log.g()))
 		r.src.opened.Store(true)
 		src = stream.NewSimpleStream[int](r.src.Emit)
+	}
+	if cc.outerr {
+		// Concat over a stream of streams whose first element is the probe stream and whose next pull fails (a reader
+		// that passes the error on and pulls again must not reach the closed probe provider)
+		inner := src
+		calls := 0
+		src = stream.Concat(stream.NewSimpleStream(func(ctx context.Context) (stream.Stream[int], error) {
+			calls++
+			if calls == 1 {
+				return inner, nil
+			}
+			return stream.Empty[int](), errConcUser
+		}))
 	}
 	for i := 0; i < cc.lcx; i++ {
 		// elements on top of the provider's own: the provider must still be closed only after its reader has left it
